@@ -30,8 +30,18 @@ type GCue struct {
 	Split  bool     `json:"split"` // every run on a line of its own (else all runs on one line)
 }
 
+// A name that begins with "~" is a loose reference: an object of that identifier which is not the one in the
+// list's table (the identifier may or may not be defined there) - a shape of the public model no reader returns.
+func bare(n string) string { return strings.TrimPrefix(n, "~") }
+
 func (g Graph) Build() *astisub.Subtitles {
 	s := astisub.NewSubtitles()
+	style := func(n string) *astisub.Style {
+		if strings.HasPrefix(n, "~") {
+			return &astisub.Style{ID: bare(n), InlineStyle: &astisub.StyleAttributes{}}
+		}
+		return s.Styles[n]
+	}
 	for _, id := range g.Styles {
 		s.Styles[id] = &astisub.Style{ID: id, InlineStyle: &astisub.StyleAttributes{}}
 	}
@@ -47,16 +57,20 @@ func (g Graph) Build() *astisub.Subtitles {
 	for i, c := range g.Cues {
 		it := &astisub.Item{StartAt: time.Duration(i+1) * time.Second, EndAt: time.Duration(i+2) * time.Second}
 		if c.Style != "" {
-			it.Style = s.Styles[c.Style]
+			it.Style = style(c.Style)
 		}
 		if c.Region != "" {
-			it.Region = s.Regions[c.Region]
+			if strings.HasPrefix(c.Region, "~") {
+				it.Region = &astisub.Region{ID: bare(c.Region), InlineStyle: &astisub.StyleAttributes{}}
+			} else {
+				it.Region = s.Regions[c.Region]
+			}
 		}
 		ln := astisub.Line{VoiceName: fmt.Sprintf("v%d", i)}
 		for j, r := range c.Runs {
 			li := astisub.LineItem{Text: fmt.Sprintf("t%d%d", i, j), StartAt: time.Duration((1000+j)*((j+1)%2)) * time.Millisecond, InlineStyle: &astisub.StyleAttributes{SRTBold: true}} // every other run carries an inline timestamp
 			if r != "" {
-				li.Style = s.Styles[r]
+				li.Style = style(r)
 			}
 			if c.Split && j > 0 {
 				it.Lines = append(it.Lines, ln)
@@ -73,11 +87,35 @@ func (g Graph) Build() *astisub.Subtitles {
 func (g Graph) reach() (map[string]bool, map[string]bool) {
 	var cs, cr []string
 	for _, c := range g.Cues {
-		cs = append(cs, c.Style)
-		cs = append(cs, c.Runs...)
-		cr = append(cr, c.Region)
+		cs = append(cs, bare(c.Style))
+		for _, r := range c.Runs {
+			cs = append(cs, bare(r))
+		}
+		cr = append(cr, bare(c.Region))
 	}
-	return refops.Reach(cs, cr, g.RegionStyle, g.Parent)
+	// by identifier: a loose reference keeps the table's definition of that identifier, one to an identifier the
+	// table does not have keeps nothing
+	es, er := refops.Reach(cs, cr, g.RegionStyle, g.Parent)
+	for k := range er {
+		if !contains(g.Regions, k) {
+			delete(er, k)
+		}
+	}
+	for k := range es {
+		if !contains(g.Styles, k) {
+			delete(es, k)
+		}
+	}
+	return es, er
+}
+
+func contains(l []string, x string) bool {
+	for _, y := range l {
+		if y == x {
+			return true
+		}
+	}
+	return false
 }
 
 func itemsSnap(s *astisub.Subtitles) string {
@@ -120,6 +158,23 @@ func checkOptimize(g Graph) (string, string, uint64) {
 	for k, v := range s.Regions {
 		rgPtr[k] = v
 	}
+	// references that resolve before the call (loose ones do not, and are not asked to afterwards)
+	resolved := map[interface{}]bool{}
+	for _, it := range s.Items {
+		if it.Style != nil && s.Styles[it.Style.ID] == it.Style {
+			resolved[it.Style] = true
+		}
+		if it.Region != nil && s.Regions[it.Region.ID] == it.Region {
+			resolved[it.Region] = true
+		}
+		for _, l := range it.Lines {
+			for _, li := range l.Items {
+				if li.Style != nil && s.Styles[li.Style.ID] == li.Style {
+					resolved[li.Style] = true
+				}
+			}
+		}
+	}
 	pan := ""
 	func() {
 		defer func() {
@@ -155,12 +210,12 @@ func checkOptimize(g Graph) (string, string, uint64) {
 			// narrower classification: every missing style is reachable only through inheritance
 			direct := map[string]bool{}
 			for _, c := range g.Cues {
-				direct[c.Style] = true
+				direct[bare(c.Style)] = true
 				for _, r := range c.Runs {
-					direct[r] = true
+					direct[bare(r)] = true
 				}
 				if c.Region != "" {
-					direct[g.RegionStyle[c.Region]] = true
+					direct[g.RegionStyle[bare(c.Region)]] = true
 				}
 			}
 			onlyParents := true
@@ -201,12 +256,12 @@ func checkOptimize(g Graph) (string, string, uint64) {
 		}
 	}
 	for _, it := range s.Items {
-		if it.Style != nil && s.Styles[it.Style.ID] != it.Style || it.Region != nil && s.Regions[it.Region.ID] != it.Region {
+		if it.Style != nil && resolved[it.Style] && s.Styles[it.Style.ID] != it.Style || it.Region != nil && resolved[it.Region] && s.Regions[it.Region.ID] != it.Region {
 			return "optimize.dangling", desc + ": a cue reference no longer resolves", 0
 		}
 		for _, l := range it.Lines {
 			for _, li := range l.Items {
-				if li.Style != nil && s.Styles[li.Style.ID] != li.Style {
+				if li.Style != nil && resolved[li.Style] && s.Styles[li.Style.ID] != li.Style {
 					return "optimize.dangling", desc + ": a run reference no longer resolves", 0
 				}
 			}
@@ -463,6 +518,28 @@ func c13Run(c *core.Ctx) {
 	}
 	if expired {
 		return
+	}
+	// loose references: cue, run and region references to objects that are not the table's (same identifier as a
+	// definition, or an identifier the table does not have), alone and next to an ordinary cue
+	for _, f := range forests(allS) {
+		for _, rs1 := range []string{"", "b", "c"} {
+			for _, st := range []string{"", "a", "~a", "~zz"} {
+				for _, rg := range []string{"", "r", "~r", "~zz"} {
+					for _, r1 := range []string{"", "b", "~b", "~zz"} {
+						if !strings.Contains(st+rg+r1, "~") || !c.Mine() {
+							continue
+						}
+						for _, second := range [][]GCue{nil, {{Style: "c", Region: "q", Runs: []string{""}}}} {
+							g := Graph{Styles: allS, Regions: allR, Parent: f, RegionStyle: map[string]string{}, Cues: append([]GCue{{st, rg, []string{r1}, false}}, second...)}
+							if rs1 != "" {
+								g.RegionStyle["r"] = rs1
+							}
+							run(g, "optimize.loose")
+						}
+					}
+				}
+			}
+		}
 	}
 	regions := allR
 	// inheritance chains of depth 4 and 5, referenced at each level through each kind of edge
